@@ -19,6 +19,8 @@ def run(ctx):
                       "(replace(\"'\", \"''\")), the configured table name, or the Uuid-derived session id")
     ctx.rule("R18-2", "main records a line iff it does not start with a space and differs from the previous recorded line; "
                       "previous_cmd is updated under the same guard")
+    ctx.rule("R18-4", "a LIKE pattern with an ESCAPE character escapes that character itself in the bound value "
+                      "(otherwise a name containing it matches nothing and the listing silently loses rows)")
     ctx.rule("R18-3", "history delete formats a usize row id")
     for crate in ctx.crates:
         n = sql_rule(ctx, crate)
@@ -26,6 +28,7 @@ def run(ctx):
             ctx.floor("R18-1", crate, "SQL sinks", n, FLOOR_SINKS)
             record_rule(ctx, crate)
         session_rule(ctx, crate)
+        like_escape_rule(ctx, crate)
 
 
 def is_quote_doubling(e):
@@ -189,3 +192,53 @@ def record_rule(ctx, crate):
     ok = bool(upd) and all(m.dominates(adds[0], bi) or set(dom_facts(m, bi)) >= set(facts) for bi, si in upd)
     ctx.ob("R18-2", "main", "previous_cmd is updated under the same guard as the recording", ok,
            key="R18-2|main|previous_cmd", crate=crate.kind)
+
+
+def like_escape_rule(ctx, crate):
+    import re as _re
+    n = 0
+    for b in crate.fns():
+        if not (b.path.startswith("history::") or b.path.startswith("builtins::history::")):
+            continue
+        # string constants of the function (format pieces are promoted string arrays)
+        lits = set()
+        for bi, si, s_ in b.stmts():
+            if s_["k"] == "assign":
+                e = b.rvalue_expr(s_["rv"])
+                for sub in mir.subexprs(e):
+                    cs = const_str(sub)
+                    if cs:
+                        lits.add(cs)
+                    cb = mir.const_bytes(sub)
+                    if cb:
+                        lits.add(cb.decode("latin-1"))
+        for bb, t, c in b.calls():
+            for a in b.call_args(bb):
+                for sub in mir.subexprs(a):
+                    cs = const_str(sub)
+                    if cs:
+                        lits.add(cs)
+                    cb = mir.const_bytes(sub)
+                    if cb:
+                        lits.add(cb.decode("latin-1"))
+        escs = set()
+        for l in lits:
+            for m in _re.finditer(r"(?i)escape\s+'(.)'", l):
+                escs.add(m.group(1))
+        for ch in sorted(escs):
+            n += 1
+            # some replace(<ch>, <ch><ch>) must be applied to the value
+            ok = False
+            for bb, t, c in b.calls():
+                if last_seg(c) == "replace" and "str" in c:
+                    a = b.call_args(bb)
+                    if len(a) >= 3:
+                        frm = const_str(a[1]) or mir.const_char(a[1])
+                        to = const_str(a[2])
+                        if frm == ch and to == ch + ch:
+                            ok = True
+            ctx.ob("R18-4", b.path, "LIKE ... ESCAPE %r: the escape character itself is escaped in the bound value" % ch, ok,
+                   key="R18-4|%s|escape|%s" % (b.path, ch), crate=crate.kind,
+                   detail=None if ok else "a directory / pattern containing %r makes the LIKE match nothing: rows silently vanish from the listing" % ch)
+    if n == 0:
+        ctx.ob("R18-4", "history", "no LIKE ... ESCAPE clause is used", True, crate=crate.kind, nontrivial=False)
